@@ -717,6 +717,50 @@ func valueFieldUses(files ...*ast.File) []string {
 	return out
 }
 
+// externalUses: every selector `pkg.Name` on an imported go-rangers package (import path containing
+// "com.tuntun.rangers/node/") used anywhere in the non-test files of a package directory. The
+// groupsig path reads no chain configuration: a fork flag (common.IsProposalNNN, LocalChainConfig,
+// block height) or any other node state consulted by verification shows up here.
+func externalUses(pkgdir string) []string {
+	set := map[string]bool{}
+	ents, _ := os.ReadDir(pkgdir)
+	for _, e := range ents {
+		n := e.Name()
+		if e.IsDir() || !strings.HasSuffix(n, ".go") || strings.HasSuffix(n, "_test.go") {
+			continue
+		}
+		f := parse(pkgdir + n)
+		names := map[string]string{}
+		for _, im := range f.Imports {
+			path, _ := strconv.Unquote(im.Path.Value)
+			if !strings.Contains(path, "com.tuntun.rangers/node/") || strings.HasSuffix(path, "/groupsig/bn256") {
+				continue
+			}
+			nm := path[strings.LastIndex(path, "/")+1:]
+			if im.Name != nil {
+				nm = im.Name.Name
+			}
+			names[nm] = path[strings.Index(path, "node/")+5:]
+		}
+		ast.Inspect(f, func(nd ast.Node) bool {
+			if sel, ok := nd.(*ast.SelectorExpr); ok {
+				if id, ok := sel.X.(*ast.Ident); ok {
+					if p, ok := names[id.Name]; ok {
+						set[p+"."+sel.Sel.Name] = true
+					}
+				}
+			}
+			return true
+		})
+	}
+	var out []string
+	for k := range set {
+		out = append(out, k)
+	}
+	sort.Strings(out)
+	return out
+}
+
 func leanStr(s string) string {
 	s = strings.ReplaceAll(s, "\\", "\\\\")
 	s = strings.ReplaceAll(s, "\"", "\\\"")
@@ -784,6 +828,26 @@ func main() {
 	w("bn256/twist.go: `twistGen` x.y.", "twistGenXY", dec(tgx[1]))
 	w("bn256/twist.go: `twistGen` y.x.", "twistGenYX", dec(tgy[0]))
 	w("bn256/twist.go: `twistGen` y.y.", "twistGenYY", dec(tgy[1]))
+	// pairing constants (Montgomery-decoded), the BN parameter u and the NAF of 6u+2
+	for _, nm := range []string{"xiToPMinus1Over6", "xiToPMinus1Over3", "xiToPMinus1Over2", "xiTo2PMinus2Over3"} {
+		fs := fields(topValue(cst, nm))
+		w("bn256/constants.go: `"+nm+"`.x (Montgomery-decoded).", nm+"X", dec(fs[0]))
+		w("bn256/constants.go: `"+nm+"`.y.", nm+"Y", dec(fs[1]))
+	}
+	for _, nm := range []string{"xiToPSquaredMinus1Over3", "xiTo2PSquaredMinus2Over3", "xiToPSquaredMinus1Over6"} {
+		w("bn256/constants.go: `"+nm+"` (Montgomery-decoded).", nm, dec(topValue(cst, nm)))
+	}
+	w("bn256/constants.go: `u`.", "bnU", base10Arg(topValue(cst, "u")))
+	{
+		opt := parse(dir + "bn256/optate.go")
+		var ds []string
+		for _, el := range unwrap(topValue(opt, "sixuPlus2NAF")).(*ast.CompositeLit).Elts {
+			var buf bytes.Buffer
+			printer.Fprint(&buf, fset, el)
+			ds = append(ds, strings.ReplaceAll(buf.String(), " ", ""))
+		}
+		c.WriteString("/-- bn256/optate.go: `sixuPlus2NAF`. -/\ndef sixuPlus2NAF : List Int := [" + strings.Join(ds, ", ") + "]\n")
+	}
 	c.WriteString("/-- bn256.go: `numBytes` in every Marshal/Unmarshal. -/\ndef numBytes : Nat := " + strconv.Itoa(nb) + "\n")
 	c.WriteString("/-- groupsig/id.go: `ID_LENGTH`. -/\ndef idLength : Nat := " + idl + "\n")
 	c.WriteString("\nend Rangers.Generated.Bls14\n")
@@ -827,6 +891,8 @@ func main() {
 	s.WriteString(leanList("hashToCurvePointCalls", "bn256.go: callees of hashToCurvePoint", c3))
 	s.WriteString(leanList("bn256PackageState", "bn256/*.go: every write-capable use of a package-level variable inside a function body (assign / incdec / &v / method call with v as receiver)", packageState(dir+"bn256/")))
 	s.WriteString(leanList("groupsigValueUses", "sig.go, pubkey.go: methods invoked on / addresses taken of the shared-pointer field `.value` of a receiver or parameter", valueFieldUses(sigf, pkf)))
+	s.WriteString(leanList("groupsigExternalUses", "groupsig/*.go: everything used from other go-rangers packages (no chain configuration, no fork flags, no block height)", externalUses(dir)))
+	s.WriteString(leanList("bn256ExternalUses", "bn256/*.go: everything used from other go-rangers packages (nothing)", externalUses(dir+"bn256/")))
 	s.WriteString("end Rangers.Generated.Bls14.Shape\n")
 
 	fmt.Println("-----FILE Bls14Consts.lean")
